@@ -17,7 +17,8 @@ import json
 
 from .. import core, tlaval
 
-TEXTS = {'latin1': 'caf\xe9 \xfc', 'utf-8': 'caf\xe9 日本', 'cp1252': '€ caf\xe9',
+TEXTS = {'latin1': 'caf\xe9 \xfc', 'utf-8': 'caf\xe9 cafe\u0301 \u2126 日本',   # composed, decomposed, compatibility
+         'cp1252': '€ caf\xe9',
          'shift_jis': '日本語', 'utf-16': '\xe9 日',
          # encodings whose bytes can all be below 0x80 without being ASCII text
          'utf-16-le': 'Piano 1', 'iso2022_jp': '日本語 abc'}
@@ -53,6 +54,44 @@ def elsewhere():
     return None
 
 
+def in_force(expect):
+    """Meta text handled right now must use charset `expect` (the default outside
+    every call; the outer file's charset between two events of an outer call)."""
+    import mido
+    if expect == 'latin1':
+        return elsewhere()
+    text = TEXTS[expect]
+    try:
+        b = bytes(mido.MetaMessage('text', text=text).bytes())
+    except Exception as e:
+        return 'encoding inside the outer call (charset %s) raised %r' % (expect, e)
+    enc = text.encode(expect)
+    if b != b'\xff\x01' + vlq(len(enc)) + enc:
+        return 'text encoded inside the outer call gives %r (not %s)' % (list(b), expect)
+    try:
+        m = mido.MetaMessage.from_bytes(list(b'\xff\x03' + vlq(len(enc)) + enc))
+    except Exception as e:
+        return 'decoding inside the outer call (charset %s) raised %r' % (expect, e)
+    if m.name != text:
+        return 'text decoded inside the outer call gives %r (not %s)' % (m.name, expect)
+    return None
+
+
+class HookFile(io.BytesIO):
+    """A file object that runs `hooks[offset]()` when the reader arrives at offset."""
+
+    def __init__(self, data, hooks):
+        io.BytesIO.__init__(self, data)
+        self.hooks = dict(hooks)
+
+    def read(self, n=-1):
+        pos = self.tell()
+        for off in sorted(self.hooks):
+            if off <= pos:
+                self.hooks.pop(off)()
+        return io.BytesIO.read(self, n)
+
+
 def build_load(cs, fault, at, n=3):
     """-> (list of byte strings to try, realised?)"""
     text = TEXTS[cs].encode(cs)
@@ -71,6 +110,7 @@ def build_load(cs, fault, at, n=3):
     body = b''.join(events)
     hdr = b'MThd' + (6).to_bytes(4, 'big') + b'\x00\x01\x00\x01\x01\xe0'
     data = hdr + b'MTrk' + len(body).to_bytes(4, 'big') + body
+    build_load.offsets = [len(hdr) + 8 + sum(len(e) for e in events[:k]) for k in range(len(events))]
     if fault == 'bad_data_byte' and at == 0:
         # a fault in the header: not a MIDI file
         return [b'MThx' + data[4:]], True
@@ -84,18 +124,33 @@ def build_load(cs, fault, at, n=3):
     return [data], realised
 
 
-def run_call(kind, cs, fault, at):
-    """Execute one concretised call. Returns list of problems (key, detail)."""
+def run_call(kind, cs, fault, at, children=(), outer='latin1'):
+    """Execute one concretised call; children = [(pc, call)] are calls nested
+    inside it, begun after the call has processed pc events.  `outer' is the
+    charset in force around this call.  Returns list of problems (key, detail)."""
     import mido
     probs = []
     use_cs = 'no-such-charset' if fault == 'unknown_charset' else cs
+
+    def nested(pc):
+        for cpc, ch in children:
+            if cpc == pc:
+                probs.extend(run_call(ch['kind'], ch['cs'], ch['fault'], ch['at'], ch['children'], outer=cs))
+
+    def elsewhere():
+        return in_force(outer)
     if kind == 'load':
         datas, realised = build_load(cs, fault, at)
+        offsets = build_load.offsets
         for data in datas:
             ok = True
             inside = None
             try:
-                mid = mido.MidiFile(file=io.BytesIO(data), charset=use_cs)
+                if children:
+                    f = HookFile(data, {offsets[pc]: (lambda pc=pc: nested(pc)) for pc, _ in children})
+                else:
+                    f = io.BytesIO(data)
+                mid = mido.MidiFile(file=f, charset=use_cs)
             except Exception as exc:
                 ok = False
                 inside = elsewhere()       # while the exception (and its traceback) is alive
@@ -141,7 +196,15 @@ def run_call(kind, cs, fault, at):
                 m = mido.Message('clock', time=1)
                 realised = True
             tr.append(m)
-        mid.tracks.append(tr)
+        if children:
+            def gen(msgs=list(tr)):
+                for k, m in enumerate(msgs):
+                    nested(k)
+                    yield m
+                nested(len(msgs))
+            mid.tracks.append(gen())
+        else:
+            mid.tracks.append(tr)
         if fault in ('non_integer_time', 'realtime_message') and at == 0:
             mid.type = 0
             mid.tracks.append(mido.MidiTrack())       # fails before any event is written
@@ -185,11 +248,30 @@ def reset_global():
     meta._charset = 'latin1'
 
 
-def run_behaviour(calls):
+def parse_calls(hist):
+    """The event history of CharsetScope -> list of top-level calls, each
+    {'kind','cs','fault','at','children': [(pc, call)]}."""
+    top, stack = [], []
+    for op, kind, cs, fault, at in hist:
+        if op == 'begin':
+            node = {'kind': kind, 'cs': cs, 'fault': fault, 'at': at, 'children': [], 'pc': 0}
+            if stack:
+                stack[-1]['children'].append((stack[-1]['pc'], node))
+            else:
+                top.append(node)
+            stack.append(node)
+        elif op == 'item':
+            stack[-1]['pc'] += 1
+        else:
+            stack.pop()
+    return top
+
+
+def run_behaviour(hist):
     reset_global()
     try:
-        for kind, cs, fault, at in calls:
-            probs = run_call(kind, cs, fault, at)
+        for c in parse_calls(hist):
+            probs = run_call(c['kind'], c['cs'], c['fault'], c['at'], c['children'])
             if probs:
                 return probs[0]
         return None
@@ -202,8 +284,10 @@ def worker(lines):
     for line in lines:
         calls = tlaval.parse(json.loads(line))[1]
         res['n'] += 1
-        res['counts']['calls'] += len(calls)
-        res['counts']['failing_calls'] += sum(1 for c in calls if c[2] != 'none')
+        res['counts']['calls'] += sum(1 for c in calls if c[0] == 'begin')
+        res['counts']['failing_calls'] += sum(1 for c in calls if c[0] == 'raise')
+        if any(c['children'] for c in parse_calls(calls)):
+            res['counts']['nested_behaviours'] = res['counts'].get('nested_behaviours', 0) + 1
         r = run_behaviour(calls)
         if r and len(res['viol']) < 10:
             res['viol'].append(('charset/' + r[0], {'calls': calls}, r[1]))
@@ -217,16 +301,19 @@ def replay(case):
     return r and '%s: %s' % r
 
 
-def cfg(scoped, nitems, maxcalls, emit=True):
+def cfg(scoped, nitems, maxcalls, emit=True, depth=1, few=False):
     return """SPECIFICATION Spec
 CONSTANTS
  Scoped = %s
  NItems = %d
  MaxCalls = %d
+ MaxDepth = %d
+ Charsets <- %s
 INVARIANT ScopedCharset
 INVARIANT InForceDuringCall
-%sCHECK_DEADLOCK FALSE
-""" % ('TRUE' if scoped else 'FALSE', nitems, maxcalls, 'INVARIANT Emit\n' if emit else '')
+%s%sCHECK_DEADLOCK FALSE
+""" % ('TRUE' if scoped else 'FALSE', nitems, maxcalls, depth, 'FewCharsets' if few else 'AllCharsets',
+       'INVARIANT SavedChain\n' if scoped else '', 'INVARIANT Emit\n' if emit else '')
 
 
 def run(ctx):
@@ -238,10 +325,12 @@ def run(ctx):
     pr = core.ParallelReplay(ctx, worker, batch_size=100)
     res = core.run_tlc('CharsetScope', cfg(True, 3, 1), on_emit=pr.push, raw_ints=True, timeout=1200)
     ctx.add_tlc(res, 'CharsetScope Scoped=TRUE, single calls')
-    if thorough:
-        res = core.run_tlc('CharsetScope', cfg(True, 3, 2), on_emit=pr.push, raw_ints=True, timeout=3000,
-                           heap='16g')
-        ctx.add_tlc(res, 'CharsetScope Scoped=TRUE, two consecutive calls')
+    # two calls, consecutive or one nested inside the other (a generator track that loads
+    # or saves another file; a file object whose read() does)
+    res = core.run_tlc('CharsetScope', cfg(True, 3, 2, depth=2, few=not thorough), on_emit=pr.push, raw_ints=True,
+                       timeout=3000, heap='16g')
+    ctx.add_tlc(res, 'CharsetScope Scoped=TRUE, two calls, consecutive or nested%s' % (
+        '' if thorough else ' (3 charsets)'))
     pr.finish()
     ctx.exhaustive = True
     ctx.constants = {'charsets': sorted(TEXTS), 'items_per_call': 3}
